@@ -9,6 +9,7 @@ import (
 	"fmt"
 	"io"
 	"os"
+	"runtime/pprof"
 	"strings"
 	"time"
 
@@ -88,6 +89,9 @@ func withStage(base, stage core.Runner) core.Runner {
 	return core.Runner{Gen: func(c *core.Ctx) {
 		base.Gen(c)
 		rule := c.Res.Rule
+		if !c.First() { // sharded run: the stage is small and runs in the first shard only
+			return
+		}
 		stage.Gen(c)
 		c.Res.Rule = rule + " || " + c.Res.Rule
 	}, Eval: func(c *core.Ctx, l string) *core.Case {
@@ -114,6 +118,12 @@ func main() {
 	core.Out = os.Stdout
 	if null, err := os.OpenFile(os.DevNull, os.O_WRONLY, 0); err == nil {
 		os.Stdout = null
+	}
+	if pf := os.Getenv("VERIF_CPUPROFILE"); pf != "" { // development aid: where does a tier spend its time
+		if fh, err := os.Create(pf); err == nil {
+			pprof.StartCPUProfile(fh)
+			defer pprof.StopCPUProfile()
+		}
 	}
 	run, ok := runners[*prop]
 	if !ok {
